@@ -410,6 +410,10 @@ func SingleMutations(root *jnode, typeURLs, enumNames []string) []Mutation {
 				for i, k := range o.Keys {
 					if !have[k] {
 						addMember("known-member", k, o.Kids[i])
+						// ... and present-but-empty: proto3 JSON reads null as "unset", decoders that record the member
+						// before looking at its value do not
+						addMember("known-member", k, rawNode("null"))
+						addMember("known-member", k, &jnode{K: jObj})
 					}
 				}
 			}
